@@ -283,13 +283,75 @@ theorem newEntries_fst_length (mt md : Nat) : ∀ (news : List NewMember) (o : N
   | nil => intro o; rfl
   | cons n ns ih => intro o; simp [newEntries, ih]
 
+/-- the directory entries of the rewrite: kept members (running offset from 0), then the added ones -/
+def rewriteFiles (z : Bytes) (kms : List KM) (mt md : Nat) (news : List NewMember) : List File :=
+  (keptPMs z kms 0).map (·.1) ++ (newEntries mt md news (keptLenK kms)).1
+
+/-- **the C17 rewrite of a readable contiguous archive, in closed form** (code with fix-F7g): it fails with the error
+    of `GetDirectoryHeader` exactly when some directory entry it has to synthesise has no room for the ZIP64 field,
+    and otherwise produces kept bytes ++ added bytes ++ directory ++ end records. -/
+theorem rewriteWith_eq {z : Bytes} {a : Archive} (hp : parse z = some a) (hc : a.ends.comment = [])
+    (h42 : 42 ≤ z.length) (h63 : z.length < 2 ^ 63) (hfix : (a.members.all fun m => fixedNeed m.entry.need) = true)
+    (hsigned : descSigned a = true) (hw : (a.members.all (widthOK a)) = true)
+    (hcontig : contigSpec a 0 a.members = true)
+    (mask : List Bool) (force : Bool) (mt md : Nat) (news : List NewMember) :
+    ∃ kms0, MeasuredL z a a.ends.cdOff kms0 ∧ kms0.map (·.2.1) = a.members ∧ a.ends.cdOff ≤ z.length ∧
+      contigK 0 (setMask mask kms0) a.ends.cdOff ∧
+      rewriteWith z mask force mt md news =
+        if headersOK (rewriteFiles z (setMask mask kms0) mt md news) then
+          .ok (keptBytesK z (setMask mask kms0) ++ (newEntries mt md news (keptLenK (setMask mask kms0))).2 ++
+            (headersOf (rewriteFiles z (setMask mask kms0) mt md news)).1 ++
+            endRecords (rewriteFiles z (setMask mask kms0) mt md news).length
+              (headersOf (rewriteFiles z (setMask mask kms0) mt md news)).1.length
+              (keptLenK (setMask mask kms0) + (newEntries mt md news (keptLenK (setMask mask kms0))).2.length) force
+              (maxReader (rewriteFiles z (setMask mask kms0) mt md news)))
+        else .err "extratoolong" := by
+  obtain ⟨hen, hsum, hes, _, _⟩ := parse_some hp
+  obtain ⟨d, hd, hfiles, hloc, _⟩ := read_of_parse hp hc h42 h63 hfix
+  obtain ⟨p, hp22, _, _, _, _, hrest⟩ := ends_some hen
+  have hcdz : a.ends.cdOff ≤ z.length := by
+    split at hrest
+    · obtain ⟨_, _, hq, _, hf, _⟩ := hrest
+      omega
+    · have := hrest.1; omega
+  obtain ⟨kms0, hM0, hsm0, _⟩ := measured_exists hp h63 hsigned hw a.members [] _ _ (fun _ h => h) hes
+  have hck : contigK 0 (setMask mask kms0) a.ends.cdOff := by
+    apply contigK_setMask
+    apply contigK_of_spec kms0 _ 0 hM0
+    rw [hsm0]; exact hcontig
+  refine ⟨kms0, hM0, hsm0, hcdz, hck, ?_⟩
+  unfold rewriteWith
+  have hd' : read ⟨z, false, 0⟩ = .ok d := hd
+  simp only [hd']
+  have hfs : d.files = filesOf z a.ends.cdOff (kms0.map (·.2.1.entry)) := by
+    rw [hfiles, ← hsm0, List.map_map]; rfl
+  have hmg := mangle_measured h63 hcdz kms0 mask a.ends.cdOff { files := [], size := 0, dirLoc := 0 } [] hM0
+  rw [← hfs] at hmg
+  have hmg' : mangle ⟨z, false, 0⟩ d.files mask { files := [], size := 0, dirLoc := 0 } [] = _ := hmg
+  rw [hmg']
+  simp only [List.nil_append, Nat.zero_add]
+  generalize hkms : setMask mask kms0 = kms at *
+  rw [hloc, dropRanges_contig z kms _ hck hcdz]
+  have hA := addNews_spec mt md news []
+    { files := (keptPMs z kms 0).map (·.1), size := 0, dirLoc := keptLenK kms }
+  simp only [List.nil_append] at hA
+  obtain ⟨a1, a2, a3, _⟩ := hA
+  generalize hP : addNews mt md news ([], { files := (keptPMs z kms 0).map (·.1), size := 0, dirLoc := keptLenK kms }) = P at *
+  have hF : P.2.files = rewriteFiles z kms mt md news := by rw [a2]; rfl
+  have hwd : writeDirectory P.2 force = ((headersOf P.2.files).1,
+      endRecords P.2.files.length (headersOf P.2.files).1.length P.2.dirLoc force (maxReader P.2.files),
+      { P.2 with files := (headersOf P.2.files).2 }) := rfl
+  rw [hwd]
+  simp only
+  rw [hF, a1, a3]
+  cases headersOK (rewriteFiles z kms mt md news) <;> simp
+
 /-- **the C17 rewrite of a readable, contiguous archive parses**: kept members (those the mask does not
     delete) first, then the added ones, each with the view it had / was requested with. -/
 theorem rewriteWith_parses {z : Bytes} {a : Archive} (hp : parse z = some a) (hc : a.ends.comment = [])
     (h42 : 42 ≤ z.length) (h63 : z.length < 2 ^ 63) (hfix : (a.members.all fun m => fixedNeed m.entry.need) = true)
     (hsigned : descSigned a = true) (hw : (a.members.all (widthOK a)) = true)
     (hcontig : contigSpec a 0 a.members = true)
-    (hx : ∀ sm ∈ a.members, sm.entry.extra.length + 28 < 2 ^ 16)
     (mask : List Bool) (force : Bool) (mt md : Nat) (hmt : mt < 2 ^ 16) (hmd : md < 2 ^ 16) (news : List NewMember)
     (hnews : ∀ n ∈ news, NewOK n) (out : Bytes) (h : rewriteWith z mask force mt md news = .ok out)
     (hbound : news = [] ∨ out.length < 2 ^ 64) :
@@ -302,60 +364,39 @@ theorem rewriteWith_parses {z : Bytes} {a : Archive} (hp : parse z = some a) (hc
       a'.ends.count = ((keptPMs z (setMask mask kms) 0).length + news.length) ∧
       ((∀ n ∈ news, NewReadable n) → 42 ≤ out.length →
         noComment a' out = true ∧ descSigned a' = true ∧ zip64Fixed a' = true ∧ (a'.members.all (widthOK a')) = true) := by
-  obtain ⟨hen, hsum, hes, _, _⟩ := parse_some hp
-  obtain ⟨d, hd, hfiles, hloc, _⟩ := read_of_parse hp hc h42 h63 hfix
-  obtain ⟨p, hp22, _, _, _, _, hrest⟩ := ends_some hen
-  have hcdz : a.ends.cdOff ≤ z.length := by
-    split at hrest
-    · obtain ⟨_, _, hq, _, hf, _⟩ := hrest
-      omega
-    · have := hrest.1; omega
-  obtain ⟨kms0, hM0, hsm0, _⟩ := measured_exists hp h63 hsigned hw a.members [] _ _ (fun _ h => h) hes
+  obtain ⟨kms0, hM0, hsm0, hcdz, hck, heq⟩ := rewriteWith_eq hp hc h42 h63 hfix hsigned hw hcontig mask force mt md news
+  obtain ⟨hen, _, _, _, _⟩ := parse_some hp
   have hM := MeasuredL_setMask kms0 mask _ hM0
   have hsm : (setMask mask kms0).map (·.2.1) = a.members := by rw [setMask_members, hsm0]
-  have hck : contigK 0 (setMask mask kms0) a.ends.cdOff := by
-    apply contigK_setMask
-    apply contigK_of_spec kms0 _ 0 hM0
-    rw [hsm0]; exact hcontig
   have hmem : ∀ q ∈ setMask mask kms0, q.2.1 ∈ a.members := by
     intro q hq
     rw [← hsm]
     exact List.mem_map.mpr ⟨q, hq, rfl⟩
-  -- run the model
-  unfold rewriteWith at h
-  have hd' : read ⟨z, false, 0⟩ = .ok d := hd
-  simp only [hd'] at h
-  have hfs : d.files = filesOf z a.ends.cdOff (kms0.map (·.2.1.entry)) := by
-    rw [hfiles, ← hsm0, List.map_map]; rfl
-  have hmg := mangle_measured h63 hcdz kms0 mask a.ends.cdOff { files := [], size := 0, dirLoc := 0 } [] hM0
-  rw [← hfs] at hmg
-  have hmg' : mangle ⟨z, false, 0⟩ d.files mask { files := [], size := 0, dirLoc := 0 } [] = _ := hmg
-  rw [hmg'] at h
-  simp only [List.nil_append, Nat.zero_add, Res.ok.injEq] at h
   generalize hkms : setMask mask kms0 = kms at *
-  rw [hloc, dropRanges_contig z kms _ hck hcdz] at h
-  have hA := addNews_spec mt md news []
-    { files := (keptPMs z kms 0).map (·.1), size := 0, dirLoc := keptLenK kms }
-  simp only [List.nil_append] at hA
-  obtain ⟨a1, a2, a3, _⟩ := hA
-  generalize hP : addNews mt md news ([], { files := (keptPMs z kms 0).map (·.1), size := 0, dirLoc := keptLenK kms }) = P at *
+  rw [heq] at h
+  have hH : headersOK (rewriteFiles z kms mt md news) = true := by
+    cases hh : headersOK (rewriteFiles z kms mt md news) with
+    | true => rfl
+    | false => rw [hh] at h; simp at h
+  rw [if_pos hH] at h
+  simp only [Res.ok.injEq] at h
+  have hx : ∀ q ∈ keptPMs z kms 0, dirHeaderOK q.1 = true := by
+    intro q hq
+    simp only [headersOK, rewriteFiles, List.all_eq_true] at hH
+    exact hH q.1 (List.mem_append_left _ (List.mem_map.mpr ⟨q, hq, rfl⟩))
   have hkl := keptBytesK_length hcdz kms _ hM
-  have hBl : (keptBytesK z kms ++ P.1).length = P.2.dirLoc := by
-    rw [List.length_append, hkl, a1, a3]
-  have hwd : writeDirectory P.2 force = ((headersOf P.2.files).1,
-      endRecords P.2.files.length (headersOf P.2.files).1.length P.2.dirLoc force (maxReader P.2.files),
-      { P.2 with files := (headersOf P.2.files).2 }) := rfl
-  rw [hwd] at h
-  simp only at h
-  have hout : out = (keptBytesK z kms ++ P.1) ++ (headersOf P.2.files).1 ++
-      endRecords P.2.files.length (headersOf P.2.files).1.length P.2.dirLoc force (maxReader P.2.files) := by
+  generalize hF : rewriteFiles z kms mt md news = F at *
+  generalize hNB : (newEntries mt md news (keptLenK kms)).2 = NB at *
+  have hBl : (keptBytesK z kms ++ NB).length = keptLenK kms + NB.length := by rw [List.length_append, hkl]
+  have hout : out = (keptBytesK z kms ++ NB) ++ (headersOf F).1 ++
+      endRecords F.length (headersOf F).1.length (keptLenK kms + NB.length) force (maxReader F) := by
     rw [← h]
-  have hb2 : (keptBytesK z kms ++ P.1).length + (headersOf P.2.files).1.length < 2 ^ 64 := by
+  have hb2 : (keptBytesK z kms ++ NB).length + (headersOf F).1.length < 2 ^ 64 := by
     rcases hbound with hn | hbound
     · -- nothing added: the new directory is at most 28 bytes per entry longer than the old one
       subst hn
-      have hP1 : P.1 = [] := by rw [a1]; rfl
-      have hP2 : P.2.files = (keptPMs z kms 0).map (·.1) := by rw [a2]; simp [newEntries]
+      have hP1 : NB = [] := by rw [← hNB]; rfl
+      have hP2 : F = (keptPMs z kms 0).map (·.1) := by rw [← hF]; simp [rewriteFiles, newEntries]
       have hkle := keptLenK_le kms 0 _ hck
       have hl1 := measured_lens kms _ hM
       obtain ⟨_, hsum', _, _, _⟩ := parse_some hp
@@ -364,29 +405,29 @@ theorem rewriteWith_parses {z : Bytes} {a : Archive} (hp : parse z = some a) (hc
         split at hrest2
         · obtain ⟨_, _, hq, _, hf, _⟩ := hrest2; omega
         · have := hrest2.1; omega
-      have hl2 := keptHeaders_length hcdz hx kms _ 0 hM hmem (by omega)
+      have hl2 := keptHeaders_length hcdz kms _ 0 hM hmem (by omega) hx
       rw [hP1, hP2, List.append_nil, hkl]
       have : max a.ends.cdOff a.ends.first = a.ends.first := by omega
       omega
     · have := congrArg List.length hout
       simp only [List.length_append] at this hbound ⊢
       omega
-  obtain ⟨a', hp', hfor, hview, e1, e2, e3, e4, e5, hR⟩ := kept_news_parses hcdz hx kms _ hM hmem mt md hmt hmd news hnews force
-    (keptBytesK z kms ++ P.1) (headersOf P.2.files).1
-    (endRecords P.2.files.length (headersOf P.2.files).1.length P.2.dirLoc force (maxReader P.2.files)) P.2.files
-    (by rw [a1]) (by rw [a2]) rfl (by rw [hBl]) hb2
+  obtain ⟨a', hp', hfor, hview, e1, e2, e3, e4, e5, hR⟩ := kept_news_parses hcdz kms _ hM hmem mt md hmt hmd news hnews hx force
+    (keptBytesK z kms ++ NB) (headersOf F).1
+    (endRecords F.length (headersOf F).1.length (keptLenK kms + NB.length) force (maxReader F)) F
+    (by rw [hNB]) (by rw [← hF]; rfl) rfl (by rw [hBl]) hb2
   rw [← hout] at hp' hfor hview hR
-  refine ⟨kms0, a', hM0, hsm0, hp', ?_, ?_, e2, ?_, ?_, ?_⟩
-  · rw [hkms]; exact hview
-  · rw [hkms, e1]; exact hfor
-  · rw [hkms, e1, hBl, a3]
-  · rw [hkms, e3, a2, List.length_append, List.length_map, newEntries_fst_length]
+  subst hkms
+  refine ⟨kms0, a', hM0, hsm0, hp', hview, ?_, e2, ?_, ?_, ?_⟩
+  · rw [e1]; exact hfor
+  · rw [e1, hBl, ← hNB]
+  · rw [e3, ← hF, rewriteFiles, List.length_append, List.length_map, newEntries_fst_length]
   · intro hnr h42
     apply hR _ h42
     intro q hq
-    have hkle := keptLenK_le kms 0 _ hck
+    have hkle := keptLenK_le (setMask mask kms0) 0 _ hck
     rcases List.mem_append.mp hq with hq | hq
-    · exact keptPMs_readable hcdz hx hfix hw kms _ 0 hM hmem (by omega) q hq
+    · exact keptPMs_readable hcdz hfix hw _ _ 0 hM hmem (by omega) hx q hq
     · exact newPMs_readable mt md news _ (fun n hn => ⟨hnews n hn, hnr n hn⟩) q hq
 
 end Relic.Zip
